@@ -57,6 +57,14 @@ Step(c) ==
          /\ Verdict(id, "reweighted-flag", c.res.k = "obs" /\ c.res.o.rew)
          /\ pool' = Append(pool, IF c.res.k = "obs" THEN c.res.o ELSE [bad |-> TRUE])
          /\ UNCHANGED <<glob, dict, analysed>>
+    [] c.ev = "copy" ->         \* json round trip (reload) or pickle / deepcopy (clone) of a pooled object: the same data enter the pool again;
+                                \* the analysis travels with a clone only
+         /\ CheckReal(id, [c EXCEPT !.mode = "step"], [op |-> "var", i |-> 1], <<pool[c.src]>>, <<1>>, c.res, TRUE)
+         /\ Verdict(id, "slot", c.slot = Len(pool) + 1)
+         /\ Verdict(id, "analysis travels with a clone, not with a reload", c.analysed = (c.how = "clone" /\ c.src \in analysed))
+         /\ pool' = Append(pool, IF c.res.k = "obs" THEN c.res.o ELSE [bad |-> TRUE])
+         /\ analysed' = IF c.how = "clone" /\ c.src \in analysed THEN analysed \cup {Len(pool) + 1} ELSE analysed
+         /\ UNCHANGED <<glob, dict>>
     [] c.ev = "final" ->        \* at the end of a history every pooled object still carries exactly its data
          /\ Verdict(id, "pool-size", Len(c.objs) = Len(pool))
          /\ Verdict(id, "data-altered-by-history", Len(c.objs) # Len(pool) \/ \A k \in DOMAIN pool : c.objs[k] = pool[k])
